@@ -3991,6 +3991,8 @@ Definition sfrag (s : sstmt) : bool :=
   | SEvery x p e => efrag e
   | SOpMod x p f wrap y m => noslice p && bfrag f && is_modlop m
   | SOpDef x p d f e => noslice p && bfrag f && efrag e
+  | SEveryOp x p f e => false
+  | SAndOp ts f e => false
   end.
 
 Lemma m_exec_s_ok s : sfrag s = true -> forall st sg st' ok,
